@@ -118,7 +118,7 @@ func setStr(m map[string]bool) string {
 func init() {
 	harness.Register(&harness.Check{
 		ID: "C14", Level: "model_checking",
-		Rule: "for every driver/example/generated program P: every admissible renaming of E-ren (each bound channel name and function parameter renamed to every identifier that occurs elsewhere in the program but not in the same declaration - collision seeking - and to fresh names; top-level process names; type names, function names and labels renamed to fresh names and swapped pairwise; a type named like a mode) and every permutation of the declarations (all n! for n <= 5, else transpositions, rotations, reversal); for generated programs the channel-name renamings are restricted to the generated function and the declaration permutations to a few; renamings under which the reference typechecker's own verdict changes (P or r(P) breaks the no-shadowing convention for binders) are skipped; additionally, for every program M obtained from P by renaming ONE binding occurrence to another identifier of the program (the collision-seeking binder mutants, mostly rejected programs) every alpha-renaming of one binder of M to a fresh name; oracle: verdict(P) = verdict(r(P)) (same for M), and for accepted terminating P the outcomes of r(P) (printed multiset, completion, panics) under the default schedule (quick) / all schedules with delay <= 1 (thorough) in both polarized modes are among the outcomes of P explored with delay <= 1; states/transitions as in C01",
+		Rule: "for every driver/example/generated program P: every admissible renaming of E-ren (each bound channel name and function parameter renamed to every identifier that occurs elsewhere in the program but not in the same declaration - collision seeking - and to fresh names; top-level process names; type names, function names and labels renamed to fresh names and swapped pairwise; a type named like a mode) and every permutation of the declarations (all n! for n <= 5, else transpositions, rotations, reversal); for generated programs the channel-name renamings are restricted to the generated function and the declaration permutations to a few; renamings under which the reference typechecker's own verdict changes (P or r(P) breaks the no-shadowing convention for binders) are skipped; additionally, for every program M obtained from P by renaming ONE binding occurrence to another identifier of the program (the collision-seeking binder mutants, mostly rejected programs) every alpha-renaming of one binder of M to a fresh name; oracle: verdict(P) = verdict(r(P)) (same for M), and for accepted terminating P the outcomes of r(P) (printed multiset, completion, panics) under the default schedule (quick; thorough: size-4 generated programs) / all schedules with delay <= 1 (thorough, all other programs) in both polarized modes are among the outcomes of P explored with delay <= 1; states/transitions as in C01",
 		Assumptions: append([]string{"renamings are computed on the reference AST by an independent binder analysis (ref/terms.go, gen/ren.go)"}, mcAssumptions...),
 		Cases:       func(c *harness.Ctx) int { return getRenSpace(c).total + len(getRenSpace(c).bases) },
 		Run: func(c *harness.Ctx, idx int, r *harness.Rec) {
@@ -162,8 +162,8 @@ func init() {
 				}
 			}
 			dv := 0
-			if c.Thorough() {
-				dv = 1
+			if c.Thorough() && !strings.HasPrefix(base.Name, "gen4/") {
+				dv = 1 // the 34 000 size-4 generated programs keep the default schedule for the renamed program
 			}
 			for _, rn := range all[lo:hi] {
 				rtext := rn.P.String()
